@@ -460,7 +460,7 @@ def run(ctx):
     else:
         shapes = [(n, c, r) for n in range(1, 9) for c in range(2, 6) for r in (1, 2, 3, 5)]
         reps = 2
-    dts = [0.01, 0.005, 0.02, 0.1, 1 / 64.0, 0.25, 1.0]
+    dts = [0.01, 0.005, 0.02, 0.1, 1 / 64.0, 0.25, 1.0, 0.04, 0.008, 0.03, 2.5, 1 / 128.0]
     for (n, Nch, Nref) in shapes:
         for rep in range(reps):
             sgn = -1 if rep % 2 == 0 else 1
@@ -469,6 +469,21 @@ def run(ctx):
             method = "per" if rng.random() < 0.7 else "cor"
             plan.append(dict(n=n, Nch=Nch, Nref=Nref, Nf=Nf, sgn=sgn, dt=float(dts[int(rng.integers(0, len(dts)))]), method=method,
                              nxseg=int(rng.choice([64, 256, 1024])), A=A, B=B, extra_order=bool(rng.random() < 0.15), src="gen"))
+    # "every number of frequency lines >= 4(n+1)": a spread of line counts, small, odd, powers of two +-1, large and awkward
+    # (oracle level only, ordmax = n), crossed with awkward time steps
+    awkward_dt = [0.04, 0.008, 0.03, 2.5, 1 / 128.0, 0.01, 1.0]
+    fixed_nf = [None, 37, 513, 1024, 1025, 1026, 1300, 1751, 2049, 4099]
+    if not quick:
+        fixed_nf += [100, 257, 1023, 1027, 1537, 2047, 2050, 3001, 5000, 8193]
+    extra_nf = [int(rng.integers(1025, 4200)) for _ in range(ctx.n(3, 10))] + [int(rng.integers(20, 1024)) for _ in range(ctx.n(2, 8))]
+    for j, nf in enumerate(fixed_nf + extra_nf):
+        n = 1 + j % 3 if nf is None or nf < 3000 else 1 + j % 2
+        Nch = 2 + (j // 3) % 2
+        Nref = 1 + (j % 2) if Nch == 2 else 2
+        A, B = gen_system(rng, n, Nch, Nref)
+        plan.append(dict(n=n, Nch=Nch, Nref=Nref, Nf=4 * (n + 1) if nf is None else max(nf, 4 * (n + 1)), sgn=-1 if j % 2 else 1,
+                         dt=float(awkward_dt[j % len(awkward_dt)]), method="per" if j % 4 else "cor", nxseg=int(rng.choice([64, 1024])),
+                         A=A, B=B, extra_order=False, oracle_only=True, src="lines"))
     n_model = 0
     for it in plan:
         n, Nch, Nref, Nf, sgn, dt, method, nxseg = it["n"], it["Nch"], it["Nref"], it["Nf"], it["sgn"], it["dt"], it["method"], it["nxseg"]
@@ -483,6 +498,8 @@ def run(ctx):
         ctx.hist("shape(n,Nch,Nref)", (n, Nch, Nref))
         ctx.hist("sgn_basf", sgn)
         ctx.hist("methodSy", method)
+        ctx.hist("Nf", Nf if Nf > 64 else "<=64")
+        ctx.hist("dt", dt)
         ctx.sample(dict(case, A=A.tolist()[:1], B=B.tolist()[:1], note="first coefficient blocks only shown"))
         if cond > 3e4:
             ctx.not_judged += 1
@@ -504,9 +521,24 @@ def run(ctx):
         if len(Ad) != ordmax or len(Bn) != ordmax:
             ctx.fail("oracle", "pLSCF returned %d/%d coefficient sets for ordmax=%d" % (len(Ad), len(Bn), ordmax), case, key="C05:pLSCF:orders")
             continue
+        # every returned order: coefficient block shapes and the normalisation constraint
+        bad_comp = None
+        for k in range(ordmax):
+            a_k, b_k = np.asarray(Ad[k]), np.asarray(Bn[k])
+            if a_k.shape != (k + 2, Nch, Nch) or b_k.shape != (k + 2, Nref, Nch):
+                bad_comp = "order %d: coefficient shapes %s %s, expected %s %s" % (k + 1, a_k.shape, b_k.shape, (k + 2, Nch, Nch), (k + 2, Nref, Nch))
+            elif not np.array_equal(a_k[0 if sgn == -1 else k + 1], np.eye(Nch)):
+                bad_comp = "order %d: the constrained denominator block is not the identity" % (k + 1)
+            elif not (np.all(np.isfinite(a_k)) and np.all(np.isfinite(b_k))) and k == n - 1:
+                bad_comp = "order %d: non-finite coefficients" % (k + 1)
+            if bad_comp:
+                break
+        if bad_comp:
+            ctx.fail("oracle", "pLSCF: " + bad_comp, case, key="C05:pLSCF:components")
+            continue
         ok = oracle_coefficients(ctx, case, Ad[n - 1], Bn[n - 1], A, B, sgn, cond, "pLSCF")
         # model: exact residuals of the returned coefficients (small shapes only)
-        small = (n + 1) * Nch <= 8 and Nref <= 2 and Nf <= 16
+        small = (n + 1) * Nch <= 8 and Nref <= 2 and Nf <= 16 and not it.get("oracle_only")
         if small and Ad[n - 1].shape == (n + 1, Nch, Nch) and Bn[n - 1].shape == (n + 1, Nref, Nch) and n_model < ctx.n(12, 40):
             n_model += 1
             Om = basis(Nf, dt, sgn)
@@ -520,7 +552,7 @@ def run(ctx):
             ctx.fail("oracle", "pLSCF_poles raised %s on the coefficients pLSCF returned" % type(e).__name__, case, key="C05:poles:raise")
             continue
         oracle_order_column(ctx, case, tables, A, B, dt, method, nxseg, n - 1, Nch, ordmax, "e2e")
-        if (n + 1) * Nch <= (12 if quick else 20):
+        if (n + 1) * Nch <= (12 if quick else 20) and not it.get("oracle_only"):
             try:
                 cols, eres = witness_columns(Ad, Bn, dt)
             except Exception as e:  # noqa: BLE001
